@@ -857,6 +857,7 @@ def identifiers(ctx, c):
     # (1) where every character is tested: a loop over id.chars() that rejects with `return false`, or id.chars()[.enumerate()].all(pred)
     char_ids, pos_ids = set(), set()
     per_char = None          # ("loop", loop node) | ("all", closure)
+    slice_match = None       # a match on the identifier's bytes whose catch-all arm holds the per-character test
     for n in ix.nodes:
         if n.get("k") == "for":
             b_, ms_ = chain(n["iter"])
@@ -873,6 +874,18 @@ def identifiers(ctx, c):
             b_, ms_ = chain(n["recv"])
             names = [m_[0] for m_ in ms_]
             cl = resolve(n["args"][0])
+            b0_ = peel(b_)
+            if b0_.get("k") == "local" and not is_local(b_, p_id):
+                # `match id.as_bytes() { [] => .., [first, ..] if .. => .., bytes => bytes.iter().all(..) }`: the catch-all binding is the identifier again
+                d_ = defs.get(b0_["id"]) or defs.get(canon(b0_["id"]))
+                if d_ and d_[0] == "arm":
+                    sb_, sms_ = chain(d_[1]["scrut"])
+                    if is_local(sb_, p_id) and [m_[0] for m_ in sms_] in (["as_bytes"], ["bytes"], ["chars"]):
+                        slice_match = d_[1]
+                        b_ = sb_
+                        names = [("bytes" if m_[0] == "as_bytes" else m_[0]) for m_ in sms_] + [x for x in names if x not in ("iter", "copied", "cloned")]
+            elif is_local(b_, p_id) and names[:1] == ["as_bytes"]:
+                names = ["bytes"] + [x for x in names[1:] if x not in ("iter", "copied", "cloned")]
             if is_local(b_, p_id) and names in (["chars"], ["bytes"], ["chars", "enumerate"], ["bytes", "enumerate"]) and cl.get("k") == "closure" and len(cl["params"]) == 1:
                 per_char = ("all", cl, n)
                 pat = cl["params"][0]
@@ -912,6 +925,7 @@ def identifiers(ctx, c):
                 if init is not None and peel(init).get("v") is True and ix.precedes(defs[lid][1], per_char[1]):
                     first_flags.add(lid)
     other_sets = []        # character sets of the explicit punctuation tests
+    slice_empty_rejected = False
 
     def atom_fn(n):
         k = n.get("k")
@@ -933,6 +947,9 @@ def identifiers(ctx, c):
                 src = peel(CONSTS[src["path"]])
             if src.get("k") == "lit" and isinstance(src.get("v"), str):
                 other_sets.append(set(src["v"]))
+                return "OTHER"
+            if src.get("k") == "lit" and isinstance(src.get("v"), (list, tuple)) and all(isinstance(x_, int) for x_ in src["v"]):
+                other_sets.append({chr(x_) for x_ in src["v"]})
                 return "OTHER"
         if k == "binary" and n["op"] in ("==", "!=", ">", ">=", "<", "<=") and peel(n["l"]).get("k") == "local" and peel(n["l"])["id"] in pos_ids and peel(n["r"]).get("k") == "lit":
             v = peel(n["r"]).get("v")
@@ -966,6 +983,27 @@ def identifiers(ctx, c):
                 raise bp.Opaque(tail, "result after the loop")
         elif per_char and per_char[0] == "all":
             accept = bp.extract(per_char[1]["body"], {}, defs, None, 0, None, atom_fn)
+            if slice_match is not None:
+                # the earlier arms of the match on the bytes: `[] => false` rejects the empty name, `[first, ..] if G(first) => false` rejects a first character with G
+                for arm in slice_match["arms"]:
+                    pt = arm["pat"]
+                    while pt.get("k") in ("pref", "pderef"):
+                        pt = pt["pat"]
+                    if pt.get("k") in ("pbind", "pwild"):
+                        break
+                    if pt.get("k") != "pslice" or peel(arm["body"]).get("v") is not False:
+                        raise bp.Opaque(arm["body"], "arm of the match on the identifier's bytes")
+                    if not pt["before"] and "mid" not in pt and not pt.get("after"):
+                        slice_empty_rejected = True
+                        continue
+                    if len(pt["before"]) == 1 and "mid" in pt and not pt.get("after"):
+                        fb = pat_bindings(pt["before"][0])
+                        if len(fb) == 1:
+                            char_ids.add(fb[0][1])
+                            g_ = bp.extract(arm["guard"], {}, defs, None, 0, None, atom_fn) if "guard" in arm else ("const", True)
+                            accept = ("and", accept, ("not", ("and", ("atom", "FIRST"), g_)))
+                            continue
+                    raise bp.Opaque(arm["body"], "slice pattern on the identifier's bytes")
     except bp.Opaque as ex:
         accept = None
         why = "UNRECOGNISED (fail closed): the per-character test contains `%s` (%s)" % (show(ex.node)[:60], ex.why)
@@ -1003,7 +1041,7 @@ def identifiers(ctx, c):
     ctx.inst("R05.5", "every-character-tested", ok, f["span"], why)
     # the empty name: rejected before / besides the per-character test
     empties = [n for n in ix.nodes if n.get("k") == "mcall" and n["name"] == "is_empty" and is_local(n["recv"], p_id)]
-    ok_empty = False
+    ok_empty = slice_empty_rejected
     for n in empties:
         # `if id.is_empty() { return false }` or `!id.is_empty() && ...` as (part of) the result
         for c_, pol in norm_.path_conditions(ix, n):
